@@ -34,6 +34,7 @@ impl boxworks::FontRepo for Font {
 }
 
 /// Font metrics read from a TFM file by the model's own reader (self-validation only).
+#[allow(dead_code)]
 pub struct TfmFont(pub std::collections::BTreeMap<u8, (i64, i64, i64)>);
 impl boxworks::FontRepo for TfmFont {
     fn width(&self, c: char, _f: u32) -> Option<Scaled> {
@@ -222,4 +223,79 @@ pub fn list_from_json(v: &Value) -> Option<Vec<ds::Horizontal>> {
 /// One-line rendering in the crate's own box language.
 pub fn render(list: &[ds::Horizontal]) -> String {
     list.iter().map(|x| x.to_string().split_whitespace().collect::<Vec<_>>().join(" ")).collect::<Vec<_>>().join(" ")
+}
+
+// ---------------------------------------------------------------------------- witnesses
+
+/// Choice of the failing cases that are reported. `vcore::Acc` keeps the six failures with the
+/// smallest indices, which is one defect class six times over when a class has millions of members.
+/// Here every (family, failure class) keeps its smallest-index case – independent of the thread
+/// schedule – and the reported indices interleave the families: first the first class of every
+/// family, then the second ones, and so on.
+pub mod witness {
+    use std::cell::RefCell;
+    use std::collections::{BTreeMap, HashMap};
+    use std::sync::Mutex;
+    use vcore::{Acc, Fail};
+
+    static BEST: Mutex<BTreeMap<String, Fail>> = Mutex::new(BTreeMap::new());
+    thread_local! {
+        static SEEN: RefCell<HashMap<String, u64>> = RefCell::new(HashMap::new());
+    }
+
+    /// Count a failure of class `cls`; build the expensive description only if it is the smallest
+    /// index this thread has seen for the class.
+    pub fn offer(acc: &mut Acc, cls: &str, idx: u64, make: impl FnOnce() -> Fail) {
+        acc.fail_count += 1;
+        let skip = SEEN.with(|s| {
+            let mut s = s.borrow_mut();
+            match s.get(cls) {
+                Some(best) if *best <= idx => true,
+                _ => {
+                    s.insert(cls.to_string(), idx);
+                    false
+                }
+            }
+        });
+        if skip {
+            return;
+        }
+        let mut g = BEST.lock().unwrap();
+        match g.get(cls) {
+            Some(f) if f.idx <= idx => {}
+            _ => {
+                g.insert(cls.to_string(), make());
+            }
+        }
+    }
+
+    /// Move the collected witnesses of the family that just ran into its accumulator.
+    pub fn collect(acc: &mut Acc, family_no: u64) {
+        let mut v: Vec<Fail> = std::mem::take(&mut *BEST.lock().unwrap()).into_values().collect();
+        v.sort_by_key(|f| f.idx);
+        for (rank, f) in v.iter_mut().enumerate() {
+            f.note = format!("{} [case #{} of the family]", f.note, f.idx);
+            f.idx = ((rank as u64) << 44) | (family_no << 40) | (f.idx & ((1 << 40) - 1));
+        }
+        v.truncate(6);
+        acc.fails = v;
+    }
+
+    /// Run one family through `vcore::par` (what `Ctx::family_ranges` does) and attach the witnesses.
+    pub fn run_family<F>(ctx: &mut vcore::Ctx, family_no: u64, name: &str, bounds: &str, n: u64, f: F)
+    where
+        F: Fn(std::ops::Range<u64>, &mut Acc) + Sync,
+    {
+        if !ctx.wants(name) {
+            return;
+        }
+        BEST.lock().unwrap().clear();
+        let t = std::time::Instant::now();
+        let deadline = t + std::time::Duration::from_secs_f64(ctx.remaining_s());
+        let (mut acc, done, total) = vcore::par::run(n, ctx.threads, deadline, &f);
+        collect(&mut acc, family_no);
+        let exhaustive = done == total;
+        let cap_note = if exhaustive { None } else { Some(format!("wall cap hit: {done} of {total} chunks of the index space 0..{n} were completed; chunks are contiguous index ranges taken in increasing order")) };
+        ctx.push_family(name, bounds, exhaustive, cap_note, t.elapsed().as_secs_f64(), acc);
+    }
 }
